@@ -8,7 +8,7 @@ import os
 from . import common as C
 from . import term as TM
 
-META_CLAUSES = {"width", "variables", "concrete", "depth", "cvalue"}
+META_CLAUSES = {"width", "variables", "concrete", "depth", "cvalue", "result-width"}
 
 
 def jobs_for(tier, seed, what):
@@ -27,6 +27,7 @@ def jobs_for(tier, seed, what):
     if what == "C05":
         nm = 150 if tier == "quick" else 1500
         J.append([{"gen": "metaops", "n": nm, "seed": seed * 1000 + k, "rlimit_gb": 4} for k in range(n)])
+        J.append([{"gen": "fpmeta", "n": 60 if tier == "quick" else 600, "seed": seed * 1000 + k} for k in range(4)])
     if what in ("C01", "C05"):
         z3n = 1 if what == "C01" else 0
         meta = what == "C05"
@@ -168,7 +169,7 @@ def check(pid, tier, regen=False):
     jobs = [j for g in groups for j in g]
     bad, stats = C.pipeline("w_expr", jobs, "TraceExpr.tla")
     st = C.merge_stats(stats)
-    mine = {"C01": {"meaning", "z3-translation", "zerodiv-unjustified"}, "C04": {"outcome"}, "C05": META_CLAUSES}[pid]
+    mine = {"C01": {"meaning", "z3-translation", "zerodiv-unjustified", "result-width"}, "C04": {"outcome"}, "C05": META_CLAUSES}[pid]
     exact = C.load_set(f"{pid}-exact.txt")
     new_exact = set()
     n_known = 0
